@@ -29,7 +29,16 @@ def gen(rng, tier):
     for sl, hl in pairs:
         pwd, wrong = rbytes(rng, sl % 9), b"x"
         salt = argon2_prefixed_salt(rng, sl) if sl % 5 == 0 else rbytes(rng, sl)
-        cs.append(Case("pwhash_obj 1 %d %d %s %s %s" % (1024 * (8 + sl % 5), hl, hx(pwd), hx(salt), hx(wrong)), cls="pwhash_obj/salt%%=%d" % (sl % 4)))
+        cs.append(Case("pwhash_obj 1 %d %d %s %s %s" % (1024 * (8 + sl % 5), hl, hx(pwd), hx(salt), hx(wrong)), cls="pwhash_obj/salt%%=%d" % (sl % 4),
+                       expect=(lambda a: " verify=okerr " in a and " rt " in a), meta={"why": "object hash → string → parse → verify is not the identity / does not verify"}))
+    # memory limits that are not whole KiB, and KiB counts that are not multiples of 4: the string records floor(memlimit / 1024) — what was
+    # hashed — and libsodium accepts it
+    for mem in (8193, 9000, 10000, 11264, 13824, 100000, 1051648 + 5):
+        for hl in (32, 48):
+            pwd, salt = rbytes(rng, 6), rbytes(rng, 16)
+            cs.append(Case("pwhash_obj 1 %d %d %s %s %s" % (mem, hl, hx(pwd), hx(salt), hx(b"x")), cls="pwhash_obj/memlimit-not-aligned",
+                           expect=(lambda a, m=mem: " verify=okerr " in a and " rt " in a and ("$m=%d,t=1,p=1$" % (m // 1024)) in a),
+                           meta={"why": "memlimit %d: the string must record m=%d" % (mem, mem // 1024)}))
     # the caller's salt is what is hashed AND what the string records, whatever `Config::salt_length` says (it only sizes the salt that
     # `hash()` draws itself): salts longer / shorter than the configured length must still give self-describing, verifying strings
     for sl, csl in ((17, 16), (24, 16), (32, 16), (20, 8), (16, 32), (8, 16), (64, 9), (16, 16)):
